@@ -16,8 +16,25 @@ CONFORMANCE = ("fakefs", "random")
 FUNCS = CROP_FUNCS
 
 
+def same_nested(x, y):
+    if isinstance(x, tuple) and isinstance(y, tuple):
+        return len(x) == len(y) and all(same_nested(p, q) for p, q in zip(x, y))
+    return same(x, y)
+
+
 def is_nan(x):
     return isinstance(x, float) and x != x
+
+
+def same(o, r):
+    try:
+        import numpy as np
+
+        if isinstance(o, np.ndarray) or isinstance(r, np.ndarray):
+            return isinstance(o, np.ndarray) and o.shape == r.shape and bool((o == r).all())
+    except Exception:  # noqa
+        return False
+    return o == r
 
 
 def is_nan_array(x, shape):
@@ -38,7 +55,11 @@ def result_of(kind, v):
         return (v, [v + 1, v + 2])     # tuple of scalar and a length-2 list
     if kind == 2:
         return v % 2 == 0              # bool
-    return "s%d" % v if isinstance(v, int) else "s"   # str
+    if kind == 3:
+        return "s%d" % v if isinstance(v, int) else "s"   # str
+    import numpy as np
+
+    return np.array([v, v + 1])        # a real integer ndarray (concrete payload)
 
 
 def placeholder_ok(kind, x):
@@ -47,6 +68,8 @@ def placeholder_ok(kind, x):
     if kind == 1:
         return (isinstance(x, tuple) and len(x) == 2 and is_nan_array(x[0], ())
                 and is_nan_array(x[1], (2,)))
+    if kind == 4:
+        return is_nan_array(x, (2,))
     return x is None
 
 
@@ -56,7 +79,7 @@ def body_partial(E, api, n, mode, b, kind, shuf, cu, f1, f2, f3, f4, f5, f6, bas
     mode = concretize(mode, 0, 2)
     N = 2 * n if api == 1 else n
     b = concretize(b, 1, N)
-    kind = concretize(kind, 0, 3)
+    kind = concretize(kind, 0, 4)
     cu = concretize(cu, 0, 2)          # clean_up None / False / True
     B = n_batches_expected(N, mode, b)
     if B < 2:
@@ -65,7 +88,7 @@ def body_partial(E, api, n, mode, b, kind, shuf, cu, f1, f2, f3, f4, f5, f6, bas
     if not fin or len(fin) == B:
         return True
     js = [0, j1, j2, j3, j4, j5] + [0] * 12
-    pay = mkfn(base if kind < 3 else 0)
+    pay = mkfn(base if kind < 3 else 0)      # str / ndarray results need concrete payloads
 
     def fn(**kw):
         return result_of(kind, pay(**kw))
@@ -122,7 +145,7 @@ def body_partial(E, api, n, mode, b, kind, shuf, cu, f1, f2, f3, f4, f5, f6, bas
                 if batch is None:
                     raise HarnessError("setting not sown")
                 if batch in fin:
-                    return o == r
+                    return same(o, r)
                 return placeholder_ok(kind, o)
             if not isinstance(o, tuple) or len(o) != len(axes[len(idx)]):
                 return False
@@ -138,7 +161,7 @@ def body_partial(E, api, n, mode, b, kind, shuf, cu, f1, f2, f3, f4, f5, f6, bas
         crop = cp.Crop(name="t", parent_dir=env.parent)
         crop.grow_missing()
         full = crop.reap()
-        return full == ref and not env.exists(crop_dir(env))
+        return same_nested(full, ref) and not env.exists(crop_dir(env))
 
 
 BODIES = {}
@@ -157,9 +180,9 @@ CONDS = (
                       "non-empty proper subset of finished batches (B<=%d), number results, default clean_up" % (n, min(n, 6)))
      for n in (2, 3, 4, 5, 6, 7)]
     + [make_cond(_G, "kinds", body_partial, _SIG,
-                 ["3 <= n <= 4 and 1 <= mode <= 2 and 2 <= b <= 3 and 0 <= kind <= 3 and not shuf and 0 <= cu <= 2",
+                 ["3 <= n <= 4 and 1 <= mode <= 2 and 2 <= b <= 3 and 0 <= kind <= 4 and not shuf and 0 <= cu <= 2",
                   "not f4 and not f5 and not f6", _NOJ], fixed=dict(api=0), timeout=400,
-                 bounds="N in 3..4, batch parameter 2..3, result kinds number / (scalar, list) tuple / bool / str, "
+                 bounds="N in 3..4, batch parameter 2..3, result kinds number / (scalar, list) tuple / bool / str / int ndarray, "
                         "clean_up None/False/True, all subsets")]
     + [make_cond(_G, "shuffled", body_partial, _SIG,
                  ["n == 4 and 1 <= mode <= 2 and 2 <= b <= 3 and kind == 0 and shuf and cu == 0",
